@@ -98,7 +98,7 @@ def random_masses(rng, shape, kind):
     return a1.reshape(shape), a2.reshape(shape)
 
 
-def solver_twins(ck, darsia, pid, quick, methods=("newton", "bregman")):
+def solver_twins(ck, darsia, pid, quick, methods=("newton", "bregman"), nkinds=3):
     """Two Wasserstein solver objects on grids that agree in shape, cell / face counts (and voxel volume, or - in 1-D - face
     area) and differ in the voxel sizes, set up and called along every interleaving of spec/TwoObjects.tla: each solves on ITS
     grid (distance, flux and mass balance are compared with the configuration made and used alone)."""
@@ -108,7 +108,7 @@ def solver_twins(ck, darsia, pid, quick, methods=("newton", "bregman")):
     hists = twoobj.histories(ck)
     tspecs = []
     kinds = [((3, 4), [0.5, 2.0], [2.0, 0.5]), ((8,), [1.0 / 8], [3.0 / 8]), ((3, 5), [0.5, 0.5], [0.5, 0.5])]
-    for shape, ha, hb in kinds:
+    for shape, ha, hb in kinds[:nkinds]:
         for method in methods:
             sb = shape if shape != (3, 5) else (5, 3)        # (3,5) / (5,3): equal counts of cells, faces, matrix entries
 
